@@ -30,6 +30,8 @@ REGISTRY = {
     "C01": ("codec", "run_c01"),
     "C02": ("codec", "run_c02"),
     "C03": ("gateway", "run_c03"),
+    "C05": ("gateway", "run_c05"),
+    "C17": ("stream", "run_c17"),
     "C18": ("mqtt", "run_c18"),
 }
 
@@ -179,8 +181,10 @@ def run(prop: str, tier: str, replay: str | None) -> int:
         with open(tmp, "w", encoding="utf-8") as f:
             f.write(f"import {prop_mod}\nopen AioMySensors\n" + "".join(f"#print axioms AioMySensors.{prop}.{n}\n" for n in names))
         rc, out = sh(["lake", "env", "lean", tmp], cwd=LEAN)
-        for m2 in re.finditer(r"'([\w.]+)' (?:depends on axioms: \[([^\]]*)\]|does not depend on any axioms)", out):
-            axioms[m2.group(1).split(".")[-1]] = [a.strip() for a in (m2.group(2) or "").replace("\n", " ").split(",") if a.strip()]
+        prefix = f"AioMySensors.{prop}."
+        for m2 in re.finditer(r"'([^']+)' (?:depends on axioms: \[([^\]]*)\]|does not depend on any axioms)", out):
+            name = m2.group(1)[len(prefix):] if m2.group(1).startswith(prefix) else m2.group(1)
+            axioms[name] = [a.strip() for a in (m2.group(2) or "").replace("\n", " ").split(",") if a.strip()]
         if rc != 0 or len(axioms) != len(names):
             problems.append(f"axiom audit incomplete ({len(axioms)}/{len(names)} theorems): {out[-400:]}")
         bad = {n: a for n, a in axioms.items() if not set(a) <= ALLOWED_AXIOMS}
